@@ -4,7 +4,7 @@
    Model: Model/Signals.v (the code as repaired by fixes/C16-1..4).  `run_case` of the correspondence
    is  run_ops gen_sig_tables (init_state c) (c_ops c); run_state / step below are the same step function. *)
 From Coq Require Import ZArith List Bool Permutation.
-From Mesa Require Import Common.ListX Generated.Tables Model.Signals Proofs.SignalsProofs.
+From Mesa Require Import Common.ListX Generated.Tables Model.Signals Proofs.SignalsProofs Proofs.SignalsBridge.
 Import ListNotations.
 Open Scope Z_scope.
 
@@ -222,6 +222,83 @@ Proof.
 Qed.
 Print Assumptions C16_type_order_irrelevant.
 
+(* ------------------------------------------------------------------ code-level T1: the translated source
+   gen_observe, gen_unobserve, gen_clear_all_subscriptions, gen_mesa_notify and gen_sl_setitem / delitem / insert /
+   append are TRANSLATED from the bodies of the functions in the working tree on every run (harness/tables/
+   signals_code.py); src_* are their instances with the model's registry primitives and CPython list indexing. *)
+Theorem C16_source_glue : gen_signals_glue_ok = true.
+Proof. reflexivity. Qed.
+Print Assumptions C16_source_glue.
+
+(* the translated code IS the hand-written model: observe / unobserve (All expansion, validation before any
+   subscription, the registry a raise leaves behind), clear_all_subscriptions, _mesa_notify (live filter, order, what
+   is kept) and every SignalingList mutator (read-old-then-mutate order, what is passed as old / new / index) *)
+Theorem C16_source_code_is_model : forall tb dead slots s0 nm ty h,
+  (let x := {| i_slots := slots; i_subs := s0 |} in
+   observe tb x nm ty h =
+   match src_observe tb dead slots (opt_nm nm) (opt_ty ty) h s0 with
+   | inl s => ({| i_slots := slots; i_subs := s |}, Done)
+   | inr (k, s) => ({| i_slots := slots; i_subs := s |}, Raised k)
+   end) /\
+  (let x := {| i_slots := slots; i_subs := s0 |} in
+   unobserve tb dead x nm ty h =
+   match src_unobserve tb dead slots (opt_nm nm) (opt_ty ty) h s0 with
+   | inl s => ({| i_slots := slots; i_subs := s |}, Done)
+   | inr (k, s) => ({| i_slots := slots; i_subs := s |}, Raised k)
+   end) /\
+  (let x := {| i_slots := slots; i_subs := s0 |} in
+   (clear_all x nm, Done) =
+   match src_clear tb dead slots (opt_nm nm) s0 with
+   | inl s => ({| i_slots := slots; i_subs := s |}, Done)
+   | inr (k, s) => ({| i_slots := slots; i_subs := s |}, Raised k)
+   end) /\
+  (forall owner n e,
+   notify1 dead owner n s0 e =
+   match src_mesa_notify tb dead slots n (e_type e) s0 with
+   | inl (s', calls) => (s', map (fun h => (h, mk_signal owner n e)) calls)
+   | inr (_, s') => (s', [])
+   end).
+Proof.
+  intros tb dead slots s0 nm ty h. split; [|split; [|split]].
+  - exact (observe_bridge tb dead slots s0 nm ty h).
+  - exact (unobserve_bridge tb dead slots s0 nm ty h).
+  - exact (clear_bridge tb dead slots s0 nm).
+  - exact (fun owner n e => mesa_notify_bridge tb dead slots owner n s0 e).
+Qed.
+Print Assumptions C16_source_code_is_model.
+
+Theorem C16_source_list_code_is_model : forall d,
+  (forall i v, src_setitem d (IInt i) (VInt v) = of_lres d (p_setitem gen_sig_tables d i v)) /\
+  (forall a b c vs, src_setitem d (ISlice a b c) (VList vs) = of_lres d (p_setslice gen_sig_tables d a b c vs)) /\
+  (forall i, src_delitem d (IInt i) = of_lres d (p_delitem gen_sig_tables d i)) /\
+  (forall a b c, src_delitem d (ISlice a b c) = of_lres d (p_delslice gen_sig_tables d a b c)) /\
+  (forall i v, src_insert d (IInt i) (VInt v) = of_lres d (p_insert gen_sig_tables d i v)) /\
+  (forall v, src_append d (VInt v) = of_lres d (p_append gen_sig_tables d v)).
+Proof.
+  intros d.
+  exact (conj (setitem_bridge d) (conj (setslice_bridge d) (conj (delitem_bridge d) (conj (delslice_bridge d)
+        (conj (insert_bridge d) (append_bridge d)))))).
+Qed.
+Print Assumptions C16_source_list_code_is_model.
+
+(* headline (C16_unknown_rejected + the All expansion of C16_registry_is_ledger + C18 atomicity) OF THE TRANSLATED
+   SOURCE: observe is accepted exactly when every requested (name, type) exists - All in either position - and then
+   appends the handler to exactly the lists the call names; otherwise it raises and the registry is untouched *)
+Theorem C16_observe_exact_of_source : forall dead slots s0 nm ty h,
+  match src_observe gen_sig_tables dead slots (opt_nm nm) (opt_ty ty) h s0 with
+  | inl s => observe_ok gen_sig_tables slots nm ty = true /\
+             forall k, sget k s = if matches gen_sig_tables slots nm ty k then sget k s0 ++ [h] else sget k s0
+  | inr (e, s) => observe_ok gen_sig_tables slots nm ty = false /\ s = s0 /\ (e = E_UNKNOWN_NAME \/ e = E_UNKNOWN_TYPE)
+  end.
+Proof. intros dead slots s0 nm ty h. exact (src_observe_spec gen_sig_tables dead slots s0 nm ty h C16_source_tables_ok). Qed.
+Print Assumptions C16_observe_exact_of_source.
+
+(* the translated _mesa_notify calls exactly the live references of subscribers[name][type], in list order, and keeps them *)
+Theorem C16_notify_exact_of_source : forall tb dead slots n t s,
+  src_mesa_notify tb dead slots n t s = inl (sset (n, t) (live dead (sget (n, t) s)) s, live dead (sget (n, t) s)).
+Proof. exact src_mesa_notify_spec. Qed.
+Print Assumptions C16_notify_exact_of_source.
+
 (* ------------------------------------------------------------------ non-vacuity *)
 Definition ex_case : case :=
   {| c_mro := [[(0, EObs (Some 3))]; [(1, EList)]]; c_vals := [[SObs None None; SList (Some [1; 2; 3])]];
@@ -294,4 +371,15 @@ Example C16_example_hierarchy :
   most_derived mro 0 = Some EList /\ most_derived mro 7 = Some EPlain /\
   observables_of true mro = [(0, EList); (2, EObs (Some 1))] /\
   observables_of false mro = [(0, EObs None); (7, EList); (2, EObs (Some 1))].
+Proof. vm_compute. repeat split; reflexivity. Qed.
+(* the translated code runs: All/All on a mixed class, a rejected All/"append", a dead reference pruned by _mesa_notify,
+   del l[-1] passing the removed item as old *)
+Example C16_example_source :
+  let slots := [SObs None None; SList (Some [1; 2])] in
+  src_observe gen_sig_tables [] slots None None 7 [] =
+    inl [((0, 1), [7]); ((1, 1), [7]); ((1, 2), [7]); ((1, 3), [7]); ((1, 4), [7]); ((1, 5), [7])] /\
+  src_observe gen_sig_tables [] slots None (Some 5) 7 [((1, 5), [4])] = inr (2, [((1, 5), [4])]) /\
+  src_mesa_notify gen_sig_tables [8] slots 1 5 [((1, 5), [4; 8; 7])] = inl ([((1, 5), [4; 7])], [4; 7]) /\
+  src_delitem [1; 2; 3] (IInt (-1)) = inl ([1; 2], (3, VInt 3, VNone, IInt (-1))) /\
+  src_setitem [1; 2; 3] (IInt 5) (VInt 0) = inr (4, [1; 2; 3]).
 Proof. vm_compute. repeat split; reflexivity. Qed.
